@@ -32,14 +32,14 @@ fn explore(api: &Api, setting_ix: usize, seed: u64, cx: &mut Cx) {
         let s2_login = flow::login(api, &mut t, &setup2, Some(&reg_s2.file), &p.pw, &p.cid, o(&p.ctx), o(&p.idu), o(&p.ids), None)?;
         // wrong-password client: pending server state exists, client fails
         let (ke1w, _clw) = api.login_start(&mut t, b"wrong password").map_err(er("login_start"))?;
-        let (_ke2w, slw) = api.slogin_start(&mut t, &Blob::n(&setup), Some(&Blob::n(&reg.file)), &Blob::n(&ke1w), &p.cid, o(&p.ctx), o(&p.idu), o(&p.ids)).map_err(er("slogin_start"))?;
+        let (ke2w, slw) = api.slogin_start(&mut t, &Blob::n(&setup), Some(&Blob::n(&reg.file)), &Blob::n(&ke1w), &p.cid, o(&p.ctx), o(&p.idu), o(&p.ids)).map_err(er("slogin_start"))?;
         // fake record
         let (ke1f, _clf) = api.login_start(&mut t, &p.pw).map_err(er("login_start"))?;
-        let (_ke2f, slf) = api.slogin_start(&mut t, &Blob::n(&setup), None, &Blob::n(&ke1f), b"nobody", o(&p.ctx), o(&p.idu), o(&p.ids)).map_err(er("slogin_start"))?;
+        let (ke2f, slf) = api.slogin_start(&mut t, &Blob::n(&setup), None, &Blob::n(&ke1f), b"nobody", o(&p.ctx), o(&p.idu), o(&p.ids)).map_err(er("slogin_start"))?;
         let spk = api.setup_pk(&Blob::n(&setup)).map_err(er("setup_pk"))?;
-        Ok((matched, again, bob_login, pw2_login, s2_login, slw, slf, reg.file.clone(), spk))
+        Ok((matched, again, bob_login, pw2_login, s2_login, slw, slf, reg.file.clone(), spk, (ke1w, ke2w), (ke1f, ke2f), setup.clone()))
     })();
-    let (matched, again, bob_login, pw2_login, s2_login, slw, slf, reg_file, spk) = match w {
+    let (matched, again, bob_login, pw2_login, s2_login, slw, slf, reg_file, spk, sess_w, sess_f, setup_bytes) = match w {
         Ok(w) => w,
         Err(e) => {
             cx.violate_case(&format!("honest-step/{}", e.step), format!("honest step {} failed: {:?}", e.step, e.e), json!({}));
@@ -87,12 +87,17 @@ fn explore(api: &Api, setting_ix: usize, seed: u64, cx: &mut Cx) {
         let spk_b = spk.clone();
         let idc = p.idu.clone().unwrap_or(cpk);
         let idsv = p.ids.clone().unwrap_or(spk_b);
-        let pre = sp.preamble(&p.ctx.clone().unwrap_or_default(), &idc, &matched.ke1, &idsv, &ke2[..cred_resp_len], lay[3].of(ke2), lay[4].of(ke2));
-        let server_mac = lay[5].of(ke2);
-        for (nm, ikm) in [("zero-dh", vec![0u8; 3 * sp.npk()]), ("empty-dh", vec![])] {
-            let (_, km3, _, _) = sp.derive_keys(&ikm, &pre);
-            let th2 = sp.h().hash(&[&pre, server_mac]);
-            cands.push((format!("outsider/{}", nm), crate::refmodel::hmac(sp.h(), &km3, &[&th2])));
+        // ... for the matched session, and for the sessions in which NO client ever accepts (wrong password; no record)
+        let fake_pk = sp.ke.pubkey(sp.field(crate::refmodel::Kind::Setup, "fake_sk").of(&setup_bytes));
+        let idc_fake = p.idu.clone().unwrap_or(fake_pk);
+        for (who, k1, k2, idc_x) in [("matched", &matched.ke1, ke2, &idc), ("wrong-password-session", &sess_w.0, &sess_w.1, &idc), ("no-record-session", &sess_f.0, &sess_f.1, &idc_fake)] {
+            let pre = sp.preamble(&p.ctx.clone().unwrap_or_default(), idc_x, k1, &idsv, &k2[..cred_resp_len], lay[3].of(k2), lay[4].of(k2));
+            let server_mac = lay[5].of(k2);
+            for (nm, ikm) in [("zero-dh", vec![0u8; 3 * sp.npk()]), ("empty-dh", vec![])] {
+                let (_, km3, _, _) = sp.derive_keys(&ikm, &pre);
+                let th2 = sp.h().hash(&[&pre, server_mac]);
+                cands.push((format!("outsider/{}/{}", nm, who), crate::refmodel::hmac(sp.h(), &km3, &[&th2])));
+            }
         }
     }
     for k in 0..4 {
